@@ -163,6 +163,21 @@ func Shapes() []*Grammar {
 	add("capture-only-in-and", Seq(Cap(a()), And(Cap(b())), Act(), Opt(b()), Cap(Opt(c())), Act()))
 	add("capture-only-in-not", Seq(Cap(a()), Not(Seq(Cap(Lit("-")), Class(R('0', '9')))), Act(), Opt(Lit("-")), Opt(x())))
 	add("capture-only-in-and-failing", Alt(Seq(Cap(a()), And(Seq(Cap(b()), c())), Act(), b(), c()), Seq(Cap(a()), Act(), Dot())))
+	// the body of ? * + starts with a lookahead over a rule (which records a token) and more; the
+	// lookahead fails part-way, the body is abandoned, the token must be gone
+	for _, rep := range []struct {
+		name string
+		op   func(*E) *E
+	}{{"opt", Opt}, {"star", Star}, {"plus", Plus}} {
+		body := Seq(And(Seq(Ref(1), Lit(":"))), Plus(Class(R('a', 'b'))), Lit(":"))
+		tail := Seq(Ref(1), Not(Dot()))
+		if rep.name == "plus" {
+			add("rep-body-starts-with-and-"+rep.name, Alt(Seq(rep.op(body), tail), tail), Plus(Class(R('a', 'b'))))
+		} else {
+			add("rep-body-starts-with-and-"+rep.name, Seq(rep.op(body), tail), Plus(Class(R('a', 'b'))))
+		}
+	}
+	add("rep-body-starts-with-not", Seq(Star(Seq(Not(Seq(Ref(1), Lit(";"))), Ref(1), Lit(","))), Opt(Ref(1)), Opt(Lit(";")), Not(Dot())), Seq(Cap(Class(R('a', 'b'))), Act()))
 	add("not-with-tokens", Seq(Not(Seq(Ref(1), Lit(":"))), Ref(1), Opt(Lit(":"))), Seq(Cap(Plus(Class(R('a', 'b')))), Act()))
 	add("abandoned-iteration", Seq(Star(Seq(Ref(1), Lit(","))), Ref(1)), Seq(Cap(a()), Act()))
 	add("zero-width-capture", Seq(a(), Cap(Opt(b())), Act(), Cap(Empty2()), Act()))
